@@ -169,7 +169,8 @@ def r3_fast_path(repo: Repo, rep):
         for k, el in enumerate(r.elts):
             guard = [pol for gg, pol, kk in p.guards if f"ctx.needs_input_grad[{k}]" in dump(gg)]
             if not guard:
-                rep.violation(R, bw.site(p.ret_node), bw.fq, f"gradient {k} guarded by ctx.needs_input_grad[{k}]", "no such guard", f"grad {k} unguarded")
+                # not computed at all on this path (e.g. no bias): nothing to guard
+                rep.check(R, dump(el) == "None", bw.site(p.ret_node), bw.fq, f"gradient {k} guarded by ctx.needs_input_grad[{k}]", f"no such guard, gradient is {dump(el)[:50]}", f"grad {k} unguarded")
                 continue
             if not guard[0]:
                 rep.check(R, dump(el) == "None", bw.site(p.ret_node), bw.fq, f"gradient {k} is None when not needed", dump(el)[:60], dump(el)[:60])
@@ -253,6 +254,7 @@ def r4_branch_cache(repo: Repo, rep):
         if p.ret is RAISE:
             continue
         changed = [pol for g, pol, k in p.guards if dump(g).replace(" ", "") in (f"{it}!={fs}.current_iteration_num", f"{fs}.current_iteration_num!={it}")]
+        changed += [not pol for g, pol, k in p.guards if dump(g).replace(" ", "") in (f"{it}=={fs}.current_iteration_num", f"{fs}.current_iteration_num=={it}")]
         calls = [dump(e.value.func) for e in p.events if e.kind == "call" and isinstance(e.value, ast.Call)]
         if changed and changed[0]:
             upd = p.env.get(f"{fs}.current_iteration_num")
